@@ -404,6 +404,24 @@ func TestVerif_C12(t *testing.T) {
 			continue
 		}
 
+		// requests of different challenge classes whose commitment and mask are equal (they differ in message or key
+		// vector) sometimes come through the very same signature object, as a caller that reuses its value would do
+		shared := 0
+		for i := range reqs {
+			for j := 0; j < i; j++ {
+				a, b := reqs[i].cosi, reqs[j].cosi
+				if a != b && reqs[i].class != reqs[j].class && a.Mask == b.Mask && [32]byte(a.Signature[:32]) == [32]byte(b.Signature[:32]) && reqs[i].how == "built" && rng.Intn(2) == 0 {
+					reqs[i].cosi = b
+					reqs[i].how = "built-through-the-object-of-another-challenge"
+					shared++
+					break
+				}
+			}
+		}
+		if shared > 0 {
+			r.Count("requests_sharing_a_signature_object_across_challenges", shared)
+		}
+
 		// ---- schedule ----
 		G := 1
 		if rng.Intn(7) != 0 {
